@@ -31,6 +31,7 @@
 #include "icap_log.h"
 #include "ipcache.h"
 #include "pconn.h"
+#include "sbuf/Stream.h"
 #include "security/PeerConnector.h"
 #include "SquidConfig.h"
 
@@ -477,8 +478,10 @@ void Adaptation::Icap::Xaction::noteCommRead(const CommIoCbParams &io)
     // case Comm::COMM_ERROR:
     default: // no other flags should ever occur
         debugs(11, 2, io.conn << ": read failure: " << xstrerr(rd.xerrno));
-        mustStop("unknown ICAP I/O read error");
-        return;
+        // Treat a read error like any other ICAP I/O failure (e.g. a premature
+        // EOF): throwing lets callException() bypass optional services, detail
+        // the error, and account for the service failure.
+        throw TextException(ToSBuf("ICAP I/O read error: ", xstrerr(rd.xerrno)), Here());
     }
 
     handleCommRead(io.size);
